@@ -29,12 +29,12 @@ def correlation_centroid(im, ref, threshold=0., padding=1):
     elif len(im.shape) == 2:
         ny, nx = im.shape
         nt = 1
-        im -= im.min()
+        im = im - im.min()
         im.shape = (1, ny, nx)
     else:
         raise ValueError("Incorrect number of dimensions in image array")
 
-    ref -= ref.min()
+    ref = ref - ref.min()
 
     centroids = numpy.zeros((2, nt))
     for frame in range(nt):
